@@ -62,6 +62,7 @@ Legit(class) == class \in {"legit_emb", "legit_ref", "legit_actor_emb", "legit_n
 (* shown[i] \in {"genuine", "error"}: what the real listing showed at position i *)
 ListingOK(classes, shown) ==
     /\ Len(shown) = Len(classes)                                   \* nothing dropped, nothing added
+    /\ \A i \in 1..Len(shown) : shown[i] \in {"genuine", "error"}   \* every position holds an item
     /\ \A i \in 1..Len(classes) :
          /\ shown[i] = "genuine" => Legit(classes[i])              \* only genuine members are shown as such
          /\ ~Legit(classes[i]) => shown[i] = "error"               \* impostors appear as error items in place
